@@ -43,7 +43,7 @@ CHECKS = {
         "Same symbolic runs restricted to |dt0| <= span: every recorded step but the last (of each call; one call and two consecutive calls) has magnitude |dt0| and none is longer, also when the second call turns round towards / onto / beyond the original start time "
         "(implicit: shorter only after a failed stage solve); "
         "product runs in one path: span shifted by a symbolic constant and the time-reflected problem integrated backward give term-identical states (autonomous congruent rhs).",
-        "DESIGN.md 3/C04", "Known finding c04.implicit_step_growth is reported as KNOWN-FINDING."),
+        "DESIGN.md 3/C04", "The former finding c04.implicit_step_growth (S18) was repaired by fix 82e5a77; no known finding is listed for C04."),
     "C05": _entry("other",
         "Partial claim (second sentence): the real retry loop with h of either sign - every retry strictly smaller and same sign, result is the last attempt, all-reject raises "
         "FailedToMeetTolerances (FailedIntegration through OdeSystem, no row recorded); through OdeSystem a recorded row is exactly the last (accepted) attempt from its start time; the REAL update_timestep / implicit_aware_update_timestep decided in isolation with "
